@@ -17,7 +17,7 @@ for pid in sorted(PROPERTIES):
         replay_cmd_template='./check %s --replay {path}' % pid,
         engine='pyvc',
         level_claimed=dict(category=p.get('level', 'proof'), text=t['text'], design_ref=t.get('design_ref', 'DESIGN.md 4.' + pid)),
-        level_note=t['note'],
+        level_note=t['note'] + (' Bounded, never counted as proved: the class-builder steps (packet_builder.py, outside the VC generator) are checked against run-time postconditions on a seeded corpus of declarations (pyvc/probe_builder.py: 180 declarations quick, 1 800 thorough).' if 'probe_builder' in str(p.get('native_probe', '')) or pid == 'C03' else ''),
         technique=t.get('technique', 'contract-based deductive verification: VCs generated from the real function bodies (python ast) against sidecar contracts, discharged by z3/cvc5'),
     ))
 all_ids = ['C%02d' % i for i in range(1, 21)]
